@@ -11,7 +11,7 @@ def run(rep, tier, replay):
     return run_family(rep, tier, replay, "C03", mix="steps",
                       probes=["text"],
                       quick=dict(maxcmd=16, maxbps=2, ncands=3, nhist=10, signals=True, frames=True),
-                      thorough=dict(maxcmd=20, maxbps=3, ncands=5, nhist=40, signals=True, frames=True))
+                      thorough=dict(maxcmd=20, maxbps=3, ncands=5, nhist=40, signals=True, frames=True, nopie=True))
 
 
 def pick_cands(p, n, rng):
@@ -57,6 +57,8 @@ def run_family(rep, tier, replay, prop, mix, probes, quick, thorough, by_kinds=F
     builds = [("1.89", 0, True)]
     if tier == "thorough":
         builds += [("1.95", 0, True), ("nightly", 0, True)]
+    if cfg.get("nopie"):
+        builds += [("1.89", 0, False)]           # position-dependent executable (link address = run address)
     plist = sc.puppet_list(tier, deep=(prop == "C05"))
     if cfg.get("mixed"):
         plist = plist + [sesslib.SESS_SRC / f"{n}.rs" for n in sc.PUPPETS_MIXED]
@@ -64,6 +66,8 @@ def run_family(rep, tier, replay, prop, mix, probes, quick, thorough, by_kinds=F
         for b in builds:
             if src.stem in sc.PUPPETS_DEEP and b != builds[0]:
                 continue                       # one build of the long execution is enough
+            if not b[2] and (src.stem in sc.PUPPETS_MIXED or (tier == "quick" and src.stem != plist[0].stem)):
+                continue                       # quick: one position-dependent puppet
             p = sesslib.Puppet(src, *b)
             p.lifecycle = bool(cfg.get("lifecycle"))
             p.signals = bool(cfg.get("signals"))
